@@ -101,6 +101,7 @@ func (h *Header) Algorithm() jwa.KeyManagementAlgorithm {
 }
 
 func (h *Header) SetAlgorithm(alg jwa.KeyManagementAlgorithm) {
+	delete(h.Raw, jwa.AlgorithmKey) // the decoded value no longer applies
 	h.alg = alg
 }
 
@@ -114,6 +115,7 @@ func (h *Header) EncryptionAlgorithm() jwa.EncryptionAlgorithm {
 }
 
 func (h *Header) SetEncryptionAlgorithm(enc jwa.EncryptionAlgorithm) {
+	delete(h.Raw, jwa.EncryptionAlgorithmKey) // the decoded value no longer applies
 	h.enc = enc
 }
 
@@ -126,6 +128,7 @@ func (h *Header) CompressionAlgorithm() jwa.CompressionAlgorithm {
 }
 
 func (h *Header) SetCompressionAlgorithm(zip jwa.CompressionAlgorithm) {
+	delete(h.Raw, jwa.CompressionAlgorithmKey) // the decoded value no longer applies
 	h.zip = zip
 }
 
@@ -138,6 +141,7 @@ func (h *Header) JWKSetURL() *url.URL {
 }
 
 func (h *Header) SetJWKSetURL(jku *url.URL) {
+	delete(h.Raw, jwa.JWKSetURLKey) // the decoded value no longer applies
 	h.jku = jku
 }
 
@@ -150,6 +154,7 @@ func (h *Header) JWK() *jwk.Key {
 }
 
 func (h *Header) SetJWK(jwk *jwk.Key) {
+	delete(h.Raw, jwa.JSONWebKey) // the decoded value no longer applies
 	h.jwk = jwk
 }
 
@@ -162,6 +167,7 @@ func (h *Header) KeyID() string {
 }
 
 func (h *Header) SetKeyID(kid string) {
+	delete(h.Raw, jwa.KeyIDKey) // the decoded value no longer applies
 	h.kid = kid
 }
 
@@ -171,6 +177,7 @@ func (h *Header) X509URL() *url.URL {
 }
 
 func (h *Header) SetX509URL(x5u *url.URL) {
+	delete(h.Raw, jwa.X509URLKey) // the decoded value no longer applies
 	h.x5u = x5u
 }
 
@@ -183,6 +190,7 @@ func (h *Header) X509CertificateChain() []*x509.Certificate {
 }
 
 func (h *Header) SetX509CertificateChain(x5c []*x509.Certificate) {
+	delete(h.Raw, jwa.X509CertificateChainKey) // the decoded value no longer applies
 	h.x5c = x5c
 }
 
@@ -195,6 +203,7 @@ func (h *Header) X509CertificateSHA1() []byte {
 }
 
 func (h *Header) SetX509CertificateSHA1(x5t []byte) {
+	delete(h.Raw, jwa.X509CertificateSHA1Thumbprint) // the decoded value no longer applies
 	h.x5t = x5t
 }
 
@@ -207,6 +216,7 @@ func (h *Header) X509CertificateSHA256() []byte {
 }
 
 func (h *Header) SetX509CertificateSHA256(x5tS256 []byte) {
+	delete(h.Raw, jwa.X509CertificateSHA256Thumbprint) // the decoded value no longer applies
 	h.x5tS256 = x5tS256
 }
 
@@ -219,6 +229,7 @@ func (h *Header) Type() string {
 }
 
 func (h *Header) SetType(typ string) {
+	delete(h.Raw, jwa.TypeKey) // the decoded value no longer applies
 	h.typ = typ
 }
 
@@ -231,6 +242,7 @@ func (h *Header) ContentType() string {
 }
 
 func (h *Header) SetContentType(cty string) {
+	delete(h.Raw, jwa.ContentTypeKey) // the decoded value no longer applies
 	h.cty = cty
 }
 
@@ -243,6 +255,7 @@ func (h *Header) Critical() []string {
 }
 
 func (h *Header) SetCritical(crit []string) {
+	delete(h.Raw, jwa.CriticalKey) // the decoded value no longer applies
 	h.crit = crit
 }
 
@@ -255,6 +268,7 @@ func (h *Header) EphemeralPublicKey() *jwk.Key {
 }
 
 func (h *Header) SetEphemeralPublicKey(epk *jwk.Key) {
+	delete(h.Raw, jwa.EphemeralPublicKeyKey) // the decoded value no longer applies
 	h.epk = epk
 }
 
@@ -267,6 +281,7 @@ func (h *Header) AgreementPartyUInfo() []byte {
 }
 
 func (h *Header) SetAgreementPartyUInfo(apu []byte) {
+	delete(h.Raw, jwa.AgreementPartyUInfoKey) // the decoded value no longer applies
 	h.apu = apu
 }
 
@@ -279,6 +294,7 @@ func (h *Header) AgreementPartyVInfo() []byte {
 }
 
 func (h *Header) SetAgreementPartyVInfo(apv []byte) {
+	delete(h.Raw, jwa.AgreementPartyVInfoKey) // the decoded value no longer applies
 	h.apv = apv
 }
 
@@ -292,6 +308,7 @@ func (h *Header) InitializationVector() []byte {
 }
 
 func (h *Header) SetInitializationVector(iv []byte) {
+	delete(h.Raw, jwa.InitializationVectorKey) // the decoded value no longer applies
 	h.iv = iv
 }
 
@@ -304,6 +321,7 @@ func (h *Header) AuthenticationTag() []byte {
 }
 
 func (h *Header) SetAuthenticationTag(tag []byte) {
+	delete(h.Raw, jwa.AuthenticationTagKey) // the decoded value no longer applies
 	h.tag = tag
 }
 
@@ -317,6 +335,7 @@ func (h *Header) PBES2SaltInput() []byte {
 }
 
 func (h *Header) SetPBES2SaltInput(p2s []byte) {
+	delete(h.Raw, jwa.PBES2SaltInputKey) // the decoded value no longer applies
 	h.p2s = p2s
 }
 
@@ -330,6 +349,7 @@ func (h *Header) PBES2Count() int {
 }
 
 func (h *Header) SetPBES2Count(p2c int) {
+	delete(h.Raw, jwa.PBES2CountKey) // the decoded value no longer applies
 	if p2c < 0 {
 		panic("jwe: p2c is out of range")
 	}
